@@ -32,6 +32,7 @@ type World struct {
 	failed       bool
 	initialAlloc bool
 	regTotal     int // registered so far (alive or not)
+	roster       []string
 	rng          *rand.Rand
 }
 
@@ -201,10 +202,25 @@ func (w *World) check(tag string) {
 }
 
 func (w *World) add(n int) {
-	ps := make([]string, 0, n)
-	for i := 0; i < n; i++ {
-		w.nextP++
-		ps = append(ps, fmt.Sprintf("p%d", w.nextP))
+	// batches are windows of one roster array when they fit (a caller registering its list piece by
+	// piece), otherwise fresh slices (walk-ins): the regulator must not keep or write through them
+	var ps []string
+	if w.roster == nil {
+		w.roster = make([]string, 0, 4096)
+	}
+	if w.rng.Intn(3) != 0 && len(w.roster)+n <= cap(w.roster) {
+		start := len(w.roster)
+		for i := 0; i < n; i++ {
+			w.nextP++
+			w.roster = append(w.roster, fmt.Sprintf("p%d", w.nextP))
+		}
+		ps = w.roster[start : start+n] // capacity reaches into the part of the roster not registered yet
+	} else {
+		ps = make([]string, 0, n)
+		for i := 0; i < n; i++ {
+			w.nextP++
+			ps = append(ps, fmt.Sprintf("w%d", w.nextP))
+		}
 	}
 	w.trace = append(w.trace, fmt.Sprintf("add%d", n))
 	w.rep.Inc("world_steps")
